@@ -21,7 +21,11 @@ pub fn gen(seed: u64, tier: Tier, k: u64) -> Value {
     let mut rng = Rng::keyed(seed, "C12", k);
     let pkg = [Pkg::NoConcat, Pkg::OneFile, Pkg::TwoFiles][(k % 3) as usize];
     let n_extra = if k % 5 == 0 { rng.range(1, 2) as usize } else { 0 };
-    let case = gen_small(&mut rng, tier, pkg, n_extra, 4);
+    let mut case = gen_small(&mut rng, tier, pkg, n_extra, 4);
+    // extra packs with ids beyond one byte in half of the cases that have extras (the pack id is part of what a rewrite re-serialises)
+    if n_extra > 0 && k % 10 == 0 {
+        case.id_gap = *rng.pick(&[254u16, 300, 1000]);
+    }
     // where the manifest lives: as created, or re-assembled by concat in a random order (manifest at another offset)
     let layout = if pkg != Pkg::OneFile && k % 2 == 1 { "concat" } else { "as-created" };
     // every fourth history is driven through the command line tool (`jbk locate <file> <uuid> <location>`)
